@@ -897,6 +897,13 @@ class OptionStore:
             self.options[key] = valobj
         if pval is not None:
             self.set_option(key, pval)
+        if key.subproject is None:
+            # A value that was given for the top level project only
+            # (":name") has been waiting for the global option, too.
+            root_key = key.as_root()
+            root_pval = self.pending_options.pop(root_key, None)
+            if root_pval is not None:
+                self.set_option(root_key, root_pval)
 
     def add_compiler_option(self, language: Language, key: T.Union[OptionKey, str], valobj: AnyOptionType) -> None:
         key = self.ensure_and_validate_key(key)
